@@ -388,6 +388,12 @@ fn enumerate_busy(max_backlog: usize, step_above_40: usize) -> Vec<Case> {
         ks.push(k);
         k += step_above_40;
     }
+    // sizes around the usual powers of two, whatever the tier (bounded queues, per-poll budgets)
+    for k in [127usize, 128, 129, 255, 256, 257, 300, 511, 512, 513] {
+        if !ks.contains(&k) {
+            ks.push(k);
+        }
+    }
     for k in ks {
         for fates in [vec![Fate::Busy(k)], vec![Fate::Busy(k), Fate::Running], vec![Fate::Running, Fate::Busy(k)], vec![Fate::Busy(k), Fate::Busy(1)]] {
             let mut origins = vec![Origin::BeforeRun, Origin::TaskOnSystemThread, Origin::ForeignThread];
